@@ -1,1 +1,2 @@
 pub mod cfg;
+pub mod progen;
